@@ -520,6 +520,39 @@ def run_real(spec):
 
     res = Result()
     rng = core.rng_for("C07r", spec["tier"], spec["seed"], spec["spec"])
+    if spec["spec"] != "socket":
+        # a worker that runs its bodies one after the other in its main thread: a failing body is reported, and the
+        # next one runs as if nothing had happened ("the gateway connection itself stays up", usable)
+        group = execnet.Group()
+        try:
+            if spec["spec"] == "via":
+                group.makegateway("popen//id=m")
+            gw = group.makegateway("popen//execmodel=main_thread_only" + ("//via=m" if spec["spec"] == "via" else ""))
+            for k in range(len(EXCS) - 1):
+                src, errline = body_source(1000 + k, k % 3, k)
+                ch = gw.remote_exec(src)
+                got = []
+                try:
+                    while True:
+                        got.append(ch.receive(20))
+                except RemoteError as e:
+                    check_remote_error_text(res, str(e), k, f"main_thread_only worker, body #{k}", lambda name: f"{name}:mto-{spec['spec']}", where_line=errline)
+                except BaseException as e:  # noqa
+                    res.violation(f"failure-not-reported-as-remoteerror:mto-{spec['spec']}", f"body #{k} ({EXCS[k][0]}): {type(e).__name__}: {e}")
+                try:
+                    nxt = gw.remote_exec("channel.send(channel.receive() + 1)")
+                    nxt.send(k)
+                    if nxt.receive(20) != k + 1:
+                        raise RuntimeError("wrong answer")
+                    nxt.waitclose(20)
+                except BaseException as e:  # noqa
+                    res.violation(f"gateway-unusable-after-failed-body:mto-{spec['spec']}", f"after body #{k} ({EXCS[k][0]}): {type(e).__name__}: {str(e)[-200:]}")
+                    break
+                res.count("programs")
+        except BaseException as e:  # noqa
+            res.violation(f"real-run-raised:{spec['spec']}:{type(e).__name__}", str(e)[-300:])
+        finally:
+            group.terminate(3.0)
     for run in range(spec["runs"]):
         group = execnet.Group()
         try:
